@@ -483,3 +483,33 @@ Fixpoint has_type (fuel : nat) (t : ty) (v : value) : bool :=
   end.
 
 End Static.
+
+(** *** fuel.  The walkers recurse on fuel only because [TNamed] looks a type
+    up in the environment; the fuel bounds the depth of the *descriptor*, never
+    the size of a value.  [wf] answers false when the fuel does not cover the
+    descriptor, so [wf_ty env t = true] also certifies that [fuel_of env t]
+    is enough for every value of [t]. *)
+Fixpoint ty_depth (t : ty) : nat :=
+  match t with
+  | TMaybe t' | TEitherRef t' | TRef t' | TMaybeRef t' => S (ty_depth t')
+  | TEither l r => S (Nat.max (ty_depth l) (ty_depth r))
+  | TStruct fs => S ((fix go (l : list ty) : nat :=
+                        match l with [] => O | x :: r => Nat.max (ty_depth x) (go r) end) fs)
+  | TSum alts => S ((fix go (l : list (nat * N * ty)) : nat :=
+                       match l with [] => O | x :: r => Nat.max (ty_depth (snd x)) (go r) end) alts)
+  | _ => 1%nat
+  end.
+
+Definition fuel_of (env : list ty) (t : ty) : nat :=
+  S (ty_depth t) + fold_right (fun e acc => S (ty_depth e) + acc)%nat O env.
+
+Definition wf_ty (env : list ty) (t : ty) : bool := wf env (fuel_of env t) t.
+Definition in_domain (env : list ty) (t : ty) (v : value) : bool := has_type env (fuel_of env t) t v.
+Definition encode (env : list ty) (t : ty) (v : value) : res ctree :=
+  match enc env (fuel_of env t) t v empty_bld with
+  | Ok b => Ok (finish b)
+  | Err e => Err e
+  | Panic p => Panic p
+  end.
+Definition decode (env : list ty) (t : ty) (c : ctree) : res (value * slc) :=
+  dec env (fuel_of env t) t (open c).
